@@ -177,6 +177,24 @@ def _client_case(ops, impl):
     return st["viol"]
 
 
+def pred_alloc(ops, impl):
+    """C20: every measured operation on warm objects performs zero heap allocations"""
+    bad = []
+    for i, (o, r) in enumerate(zip(ops, impl)):
+        if not o.startswith("ALLOC "):
+            continue
+        f = dict(x.split("=", 1) for x in r.split() if "=" in x)
+        if "allocs" not in f:
+            bad.append((i, "no allocation count reported for " + o[:60] + ": " + r[:80]))
+        elif f["allocs"] != "0":
+            t = o.split()
+            if t[1] == "check" and t[3] == "mi" and f.get("spare20") == "false":
+                bad.append((i, f"integrity check allocates ({f['allocs']}/run) with fewer than 20 spare bytes behind Raw"))
+            else:
+                bad.append((i, f"{f['allocs']} allocation(s) per run in steady state: {o[:80]}"))
+    return bad
+
+
 def pred_client(prop):
     def p(ops, impl):
         return [(i, why) for (i, pr, why) in _client_case(ops, impl) if pr == prop]
@@ -199,6 +217,7 @@ STREAMS = {
     "uri-dial": {"n": {"quick": 1, "thorough": 1}, "nontrivial": None},
     "agent-conc": {"n": {"quick": 30, "thorough": 600}, "nontrivial": None},
     "client-hist": {"n": {"quick": 3, "thorough": 4}, "nontrivial": None, "timeout": 3000},
+    "alloc": {"n": {"quick": 400, "thorough": 20000}, "nontrivial": nt_any, "predicate": pred_alloc, "timeout": 3000},
     "client-conc": {"n": {"quick": 60, "thorough": 2000}, "nontrivial": None, "timeout": 3000},
     "integrity": {"n": {"quick": 150, "thorough": 6000}, "nontrivial": nt_any, "predicate": pred_expect_reject},
     "fingerprint": {"n": {"quick": 100, "thorough": 5000}, "nontrivial": nt_any, "predicate": pred_expect_reject},
@@ -461,6 +480,31 @@ PROPS = {
         "assumptions": ["goroutine exit, data races and deadlocks are runtime facts (harness: Close must return within "
                         "20 s; -race build), not theorems"],
     },
+    "C20": {
+        "modules": ["Stun.Properties.C20"],
+        "theorems": ["Stun.C20.decode_warm", "Stun.C20.decode_cold", "Stun.C20.decode_cap", "Stun.C20.decode_steady",
+                     "Stun.C20.readFrom_never", "Stun.C20.build_warm", "Stun.C20.integrityCheck_alloc_iff",
+                     "Stun.C20.integrityCheck_warm", "Stun.C20.integrityCheck_allocates_without_spare",
+                     "Stun.BuildProofs.build_cap", "Stun.BuildProofs.setter_cap", "Stun.BuildProofs.add_cap"],
+        "streams": ["alloc"],
+        "level": "proof",
+        "rule": "generated well-formed messages with 0..16 attributes of every supported type and sizes up to the "
+                "attribute limits, keys of 0..200 bytes, optional MESSAGE-INTEGRITY / FINGERPRINT; per message: "
+                "testing.AllocsPerRun (GC off while measuring) of Build with pre-boxed setters into a warm builder, "
+                "CloneTo / Write / Decode / UnmarshalBinary / GobDecode / ReadFrom into a warm object with 0..700 spare "
+                "bytes, Get+Contains of every attribute, all 13 typed getters into warm (optionally dirty) "
+                "destinations, integrity and fingerprint checks; the model's capacity accounting is compared line by "
+                "line and the zero-allocation predicate is evaluated on the implementation's numbers; a case is "
+                "non-trivial when it measured at least one operation",
+        "assumptions": ["testing.AllocsPerRun counts mallocs of the whole process on one P; the collector is switched off "
+                        "during a measurement so that sync.Pool refills after a GC are not counted",
+                        "escape analysis, interface boxing and pool behaviour are properties of the Go toolchain in this "
+                        "sandbox (go1.26), observed, not proved"],
+        "explanation": "partial: the theorems cover the capacity logic of Raw (no growth once used for a message at least as "
+                       "large, for all inputs and setter lists); the Attributes slice, getter destinations and the runtime "
+                       "are only measured. The full statement is false for MessageIntegrity.Check with < 20 spare bytes "
+                       "(known finding F9, proved as integrityCheck_allocates_without_spare and measured).",
+    },
     "C14": {
         "modules": ["Stun.Properties.C14"],
         "theorems": ["Stun.C14.single_crit_linearizable", "Stun.C14.realtime_respected", "Stun.C14.seqExplains_run",
@@ -489,6 +533,7 @@ _C = "Stun.Tie."
 _CODEC_CONSTS = [_C + n for n in ("magicCookie", "attributeHeaderSize", "messageHeaderSize", "transactionIDSize", "padding",
                                   "nearestPaddedValueLength", "compatAttrType", "typeValue_translated")]
 TIE = {
+    "C20": (["Stun.Tie.Consts"], [_C + "messageIntegritySize", _C + "messageHeaderSize", _C + "attributeHeaderSize", _C + "padding"]),
     "C19": (["Stun.Tie.Funcs"], [_C + "typeValue", _C + "readValue", _C + "typeValue_translated"]),
     "C01": (["Stun.Tie.Consts", "Stun.Tie.Funcs"], _CODEC_CONSTS),
     "C02": (["Stun.Tie.Consts", "Stun.Tie.Funcs"], _CODEC_CONSTS),
